@@ -171,6 +171,7 @@ def build(ctx):
     enums, _ = _common.valuetype_enums()
     vts, vtloc = _common.valuetype_struct()
     trunc, n = k01_truncate.truncate_with_contract(kb, ID)
+    csign, kcs = _common.conversion_sign(kb, ID); n += kcs
     # Value::invertBound
     vh = extract.strip_comments(extract.read("lib/vfvalue.h"))
     mi = re.search(r'void invertBound\(\)\s*\{(.*?)\n        \}', vh, re.S)
@@ -203,6 +204,7 @@ def build(ctx):
             (r'\bconst ValueType \*dst = tok->valueType\(\)\s*;', 'const struct ValueType *dst = dst_in;', 1, 1),
             (r'\bdst->getSizeOf\(settings,\s*ValueType::Accuracy::ExactOrZero,\s*ValueType::SizeOf::Pointer\)', 'sz_in', 1, 1),
             (r'\bValueFlow::truncateIntValue\(', 'truncateIntValue(', 1, 1),
+        _common.CONVERSION_SIGN_CALL,
             (r'\bv\.isImpossible\(\)', '(v->kind == K_IMPOSSIBLE)', 0),
             (r'\bValueFlow::Value::Bound::(Upper|Lower|Point)\b', r'BOUND_\1', 1),
             (r'\bv\.invertBound\(\)', 'Value_invertBound(v)', 1, 1),
@@ -233,6 +235,7 @@ def build(ctx):
         (r'\bconst ValueType \*dst = tok->valueType\(\)\s*;', 'const struct ValueType *dst = dst_in;', 1, 1),
         (r'\bdst->getSizeOf\(settings,\s*ValueType::Accuracy::ExactOrZero,\s*ValueType::SizeOf::Pointer\)', 'sz_in', 1, 1),
         (r'\bValueFlow::truncateIntValue\(', 'truncateIntValue(', 1, 1),
+        _common.CONVERSION_SIGN_CALL,
         (r'\bValueFlow::Value::Bound::(Upper|Lower|Point)\b', r'BOUND_\1', 1),
         (r'\bvalue->invertBound\(\)', 'Value_invertBound(v)', 1, 1),
         (r'\bvalue->(bound|intvalue)\b', r'v->\1', 3),
@@ -246,7 +249,7 @@ def build(ctx):
         raise extract.ExtractError("K44 writeValue: expected the region to end inside one open block (if (dst)), found %d" % opens)
     blocks["write_block"] = "static void write_block(struct VValue *v, _Bool inc_in, _Bool reverse, const struct ValueType *dst_in, size_t sz_in)\n{\n%s\n}\n}\n" % ta
     kb.rules_fired = n
-    text = _common.BASE + enums + vts + PRELUDE + trunc + inv + blocks["inc_block"] + blocks["dec_block"] + blocks["write_block"]
+    text = _common.BASE + enums + vts + PRELUDE + trunc + csign + inv + blocks["inc_block"] + blocks["dec_block"] + blocks["write_block"]
     extract.residue_scan(text, ID)
     kb.ctext = text + HARNESS + HARNESS_WRITE
     kb.job("stmt.rest", "h_write", replace=["truncateIntValue"], defines=["CLASS_REST"], replay="stmt",
